@@ -107,6 +107,7 @@ type c20Case struct {
 	ViaFile bool    `json:"via_file,omitempty"`
 	// wired: per Load, the number of upkeeps in each report transmitted before it
 	Loads [][]int `json:"loads,omitempty"`
+	Dups     int      `json:"dups,omitempty"` // wired: every report is submitted again, same round, by this many other nodes (as all nodes of a real run do)
 	// verdict
 	Trackers        []c20Tracker `json:"trackers,omitempty"`
 	RegisterDelayMs int          `json:"register_delay_ms,omitempty"`
@@ -746,6 +747,10 @@ func runWiredCase(t *testing.T, c *c20Case) {
 				if err := tl.Transmit("0xsender", rep, round); err != nil {
 					t.Fatal(err)
 				}
+				for d := 0; d < c.Dups; d++ {
+					// the other nodes submit the same attested report of the same round: recorded (and counted) once
+					_ = tl.Transmit(fmt.Sprintf("0xsender-%d", d+2), append([]byte(nil), rep...), round)
+				}
 				n += int64(k)
 			}
 			blk := chain.Block{Number: new(big.Int).SetUint64(c.Genesis + uint64(bi) + 1), Hash: Hash32("blk", bi+1)}
@@ -769,7 +774,7 @@ func wiredBoundary() []c20Case {
 		return []c20Gen{{Block: g, Count: 2, StartID: 200, Elig: "20x", Offset: "x", Type: "conditional", Expected: exp, EvType: "generateUpkeeps"}}
 	}
 	mk := func(fam string, gens []c20Gen, loads ...[]int) c20Case {
-		return c20Case{Kind: "wired", Family: fam, Genesis: g, Duration: 50, Gens: gens, Loads: loads}
+		return c20Case{Kind: "wired", Family: fam, Genesis: g, Duration: 50, Gens: gens, Loads: loads, Dups: 3}
 	}
 	// 2 upkeeps eligible at +21/+41 and +22/+42: 4 performs expected
 	return []c20Case{
@@ -788,7 +793,7 @@ func wiredBoundary() []c20Case {
 
 func wiredRandom(r *Rng) c20Case {
 	e := expectedRandom(r)
-	c := c20Case{Kind: "wired", Family: "random", Genesis: e.Genesis, Duration: e.Duration, Gens: e.Gens, Logs: e.Logs}
+	c := c20Case{Kind: "wired", Family: "random", Genesis: e.Genesis, Duration: e.Duration, Gens: e.Gens, Logs: e.Logs, Dups: r.Intn(4)}
 	if r.Chance(1, 3) {
 		for i := range c.Gens {
 			c.Gens[i].Expected = "none"
@@ -919,7 +924,17 @@ func runPlanCase(t *testing.T, c *c20Case) {
 	planFile := ""
 	if c.ViaFile {
 		// what a verbose run does: SetupOutput saves the plan, a later run loads it
+		// ... into an output directory that an earlier run with a LONGER plan has used already
 		dir := t.TempDir()
+		longer := plan
+		for k := 0; k < 3; k++ {
+			longer.ConfigEvents = append(append([]config.OCR3ConfigEvent{}, longer.ConfigEvents...), plan.ConfigEvents...)
+			longer.GenerateUpkeeps = append(append([]config.GenerateUpkeepEvent{}, longer.GenerateUpkeeps...), plan.GenerateUpkeeps...)
+			longer.LogEvents = append(append([]config.LogTriggerEvent{}, longer.LogEvents...), plan.LogEvents...)
+		}
+		if prev, perr := run.SetupOutput(dir, true, true, longer); perr == nil {
+			_ = prev.Close()
+		}
 		outputs, oerr := run.SetupOutput(dir, true, true, plan)
 		if oerr != nil {
 			t.Fatal(oerr)
@@ -936,7 +951,7 @@ func runPlanCase(t *testing.T, c *c20Case) {
 	var wire struct {
 		Events []json.RawMessage `json:"events"`
 	}
-	if err := json.Unmarshal(enc, &wire); err != nil {
+	if err := json.Unmarshal(enc, &wire); err != nil && !c.ViaFile {
 		t.Fatal(err)
 	}
 	c.Obs.Wire = nil
